@@ -1,3 +1,4 @@
+import Feox.Fmt.Winner
 import Feox.Kv.StepAcc
 import Feox.Props.C14
 /-!
@@ -229,5 +230,27 @@ theorem ttl_only_update_keeps_value {s : State} {k : Bytes} {e : Entry} {ttl sha
 
 example : (run { cfg := { ttlOn := true } } [.insert [1] [7] none 5 true 0 1000, .get [1] (1000 + 5 * NS),
     .get [1] (1001 + 5 * NS)]).2 = [.okBool true, .okBytes [7], .err .KeyNotFound] := by decide
+
+/-! ### no resurrection at recovery (byte-level model `Feox.Fmt.recoverImage`) -/
+
+/-- **The recovery scan keeps the newest accepted generation of every key**, whatever the order
+of the extents on the device: for every record the scan accepted (`clock`), the live table shows
+for that key an entry with a timestamp at least as large. -/
+theorem recovery_keeps_newest (img : Feox.Fmt.Image) (v total : Nat) (o : Feox.Fmt.Opts) (journal : List (Nat × Nat))
+    (sector : Nat) (st0 st : Feox.Fmt.ScanSt) (h0 : st0.clock = [])
+    (hs : Feox.Fmt.scan img v total o journal sector st0 = .ok st) : Feox.Fmt.Dominates st :=
+  Feox.Fmt.scan_dominates img v total o journal sector st0 st hs (by intro p hp; rw [h0] at hp; cases hp)
+
+/-- **An expired newest generation is not replaced by an older one**: after the removal of
+expired winners nothing is in the table that the scan's table did not show (so only winners
+remain), and the key of every winner expired at recovery time is absent. -/
+theorem recovery_no_resurrection (img : Feox.Fmt.Image) (v total : Nat) (o : Feox.Fmt.Opts) (journal : List (Nat × Nat))
+    (sector : Nat) (st0 st st2 : Feox.Fmt.ScanSt) (h0 : st0.clock = [])
+    (hs : Feox.Fmt.scan img v total o journal sector st0 = .ok st) (hr : Feox.Fmt.removeExpired o st = .ok st2) :
+    (∀ x ∈ st2.live, x ∈ st.live) ∧
+    (∀ l ∈ st.live, (l.expiry > 0 && o.now > l.expiry) = true → ∀ x ∈ st2.live, x.key ≠ l.key) := by
+  have := Feox.Fmt.no_resurrection img v total o journal sector st0 st st2
+    (by intro p hp; rw [h0] at hp; cases hp) hs hr
+  exact ⟨this.2.1, this.2.2⟩
 
 end Feox.C11
